@@ -18,7 +18,8 @@
 EXTENDS FrameReductions
 
 CONSTANTS Fills,       \* set of [cols, kinds, rows, scol]; kinds = dtype class per column ("i" | "f"), not looked at here
-          MaxParts,    \* partitionings with 1..MaxParts parts
+          MaxParts,    \* partitionings with 1..MaxParts parts (exported to the harness)
+          DesignParts, \* the decomposition invariants quantify over the partitionings with <= DesignParts parts
           MinCounts,   \* min_count values for sum / prod
           Ddofs,       \* ddof values for var / std / sem
           Ns           \* n values for nlargest / nsmallest
@@ -92,7 +93,8 @@ Next == /\ ~done
 (* Design check.  `Judged` = an evaluated case of the families named.         *)
 Judged(fams) == done /\ case.fam \in fams
 FirstCol  == Col(case.rows, case.cols[1])
-Lay       == LayTable[Len(case.rows)]
+DesignTable == [n \in RowCounts |-> { lay \in LayTable[n] : Len(lay) <= DesignParts }]
+Lay       == DesignTable[Len(case.rows)]
 PartsOf(l, lay) == SplitBySizes(l, lay)
 Scalar    == exp.v[1]
 OneLane   == case.tgt = "series"             \* the invariants below look at the series target
